@@ -1,12 +1,570 @@
-// Package c09 decides C09 (see /verif/DESIGN.md §7).
+// Package c09 decides C09: DA scanning never skips a height, retries on failure, survives any blob.
 package c09
 
-import "verifharness/vk"
+import (
+	"bytes"
+	"context"
+	"encoding/json"
+	"fmt"
+	"math/rand"
+	"os"
+	"strings"
+	"time"
+
+	"github.com/evstack/ev-node/types"
+
+	"verifharness/vk"
+	"verifharness/world"
+)
 
 // Level is the verification level claimed for this property.
-const Level = "exploration"
+const Level = "fault_enumeration"
+
+func init() { vk.Children["c09"] = child }
+
+// Case is one scan scenario.
+type Case struct {
+	ID       int                 `json:"id"`
+	Start    uint64              `json:"start_height"`
+	Heights  int                 `json:"da_heights"`
+	Outcomes map[uint64][]string `json:"scripted_outcomes"` // per DA height, consumed before the real contents are served
+	Layout   []string            `json:"layout"`            // per DA height: what it holds
+	BigAt    uint64              `json:"many_ids_height"`
+	Seed     int64               `json:"seed"`
+}
+
+func (c Case) key() string {
+	b, _ := json.Marshal(c.Outcomes)
+	return fmt.Sprintf("s%d n%d big%d %s %s", c.Start, c.Heights, c.BigAt, b, strings.Join(c.Layout, "|"))
+}
+
+var errKinds = []string{"notfound", "future", "listerr", "chunkerr0", "chunkerr1", "chunkerr2"}
+
+// enumerate all outcome sequences up to length n over errKinds
+func sequences(n int) [][]string {
+	var out [][]string
+	var rec func(p []string, k int)
+	rec = func(p []string, k int) {
+		out = append(out, append([]string{}, p...))
+		if k == 0 {
+			return
+		}
+		for _, e := range errKinds {
+			rec(append(p, e), k-1)
+		}
+	}
+	rec(nil, n)
+	return out
+}
+
+func junkCorpus(rng *rand.Rand, p *world.Produced, n int) [][]byte {
+	var out [][]byte
+	src := func() []byte {
+		i := rng.Intn(len(p.Heights))
+		if p.DataBlob[i] != nil && rng.Intn(2) == 0 {
+			return p.DataBlob[i]
+		}
+		return p.HeaderBlob[i]
+	}
+	st := types.State{ChainID: "x", InitialHeight: 1, LastBlockHeight: 5}
+	for len(out) < n {
+		switch rng.Intn(9) {
+		case 0: // truncation: every length class
+			s := src()
+			cuts := []int{0, 1, 2, len(s) / 2, len(s) - 1, rng.Intn(len(s))}
+			out = append(out, append([]byte{}, s[:cuts[rng.Intn(len(cuts))]]...))
+		case 1: // bit flip
+			s := append([]byte{}, src()...)
+			s[rng.Intn(len(s))] ^= 1 << uint(rng.Intn(8))
+			out = append(out, s)
+		case 2: // absurd varint length
+			s := append([]byte{}, src()...)
+			pos := 1 + rng.Intn(len(s)-1)
+			s = append(append(append([]byte{}, s[:pos]...), 0xff, 0xff, 0xff, 0xff, 0x0f), s[pos:]...)
+			out = append(out, s)
+		case 3: // wrong message type
+			if pb, err := st.ToProto(); err == nil {
+				b, _ := json.Marshal(pb)
+				out = append(out, b)
+			}
+			out = append(out, []byte{0x08, 0x96, 0x01})
+		case 4:
+			out = append(out, []byte{})
+		case 5:
+			b := make([]byte, 1+rng.Intn(400))
+			rng.Read(b)
+			out = append(out, b)
+		case 6: // length prefix claiming more than there is
+			out = append(out, []byte{0x0a, 0xff, 0xff, 0xff, 0xff, 0xff, 0xff, 0xff, 0xff, 0x7f, 0x01})
+		case 7: // a header blob with the data blob appended
+			out = append(out, append(append([]byte{}, p.HeaderBlob[0]...), src()...))
+		case 8: // deeply nested / repeated tags
+			b := bytes.Repeat([]byte{0x0a, 0x02}, 1+rng.Intn(50))
+			out = append(out, b)
+		}
+	}
+	return out
+}
+
+type blobInfo struct {
+	genuine bool
+	isData  bool
+	height  uint64 // block height
+	hash    string // header hash / data commitment
+}
+
+// classify decides, with the harness's own knowledge of the proposer's chain, what a blob is.
+func classify(p *world.Produced, blob []byte) blobInfo {
+	if len(blob) == 0 {
+		return blobInfo{}
+	}
+	h := new(types.SignedHeader)
+	if err := h.UnmarshalBinary(blob); err == nil && h.Height() >= p.Spec.Initial && h.Height() <= p.Tip() {
+		i := p.Idx(h.Height())
+		if bytes.Equal(h.Hash(), p.HeaderHash[i]) && len(h.Signature) > 0 && h.Signer.PubKey != nil && h.Signer.PubKey.Equals(p.Keys.Pub) {
+			payload, _ := h.Header.MarshalBinary()
+			if ok, _ := p.Keys.Pub.Verify(payload, h.Signature); ok {
+				return blobInfo{genuine: true, height: h.Height(), hash: string(h.Hash())}
+			}
+		}
+	}
+	var sd types.SignedData
+	if err := sd.UnmarshalBinary(blob); err == nil && sd.Metadata != nil && len(sd.Txs) > 0 && sd.Signer.PubKey != nil && sd.Signer.PubKey.Equals(p.Keys.Pub) {
+		payload, _ := sd.Data.MarshalBinary()
+		if ok, _ := p.Keys.Pub.Verify(payload, sd.Signature); ok {
+			return blobInfo{genuine: true, isData: true, height: sd.Metadata.Height, hash: string(sd.Data.DACommitment())}
+		}
+	}
+	return blobInfo{}
+}
+
+func runCase(r *vk.Run, p *world.Produced, c Case) {
+	ctx, cancel := context.WithCancel(context.Background())
+	defer cancel()
+	rng := rand.New(rand.NewSource(c.Seed))
+	da := world.NewDADouble()
+	da.AutoAdvance = false
+	// layout
+	last := c.Start + uint64(c.Heights)
+	first := c.Start
+	if first == 0 {
+		first = 1
+	}
+	junk := junkCorpus(rng, p, 40+rng.Intn(60))
+	type placed struct {
+		h    uint64
+		blob []byte
+		info blobInfo
+	}
+	var all []placed
+	var genuine [][]byte
+	for i := range p.Heights {
+		genuine = append(genuine, p.HeaderBlob[i])
+		if p.DataBlob[i] != nil {
+			genuine = append(genuine, p.DataBlob[i])
+		}
+	}
+	rng.Shuffle(len(genuine), func(a, b int) { genuine[a], genuine[b] = genuine[b], genuine[a] })
+	perH := map[uint64][][]byte{}
+	for _, g := range genuine {
+		h := first + uint64(rng.Intn(int(last-first+1)))
+		perH[h] = append(perH[h], g)
+		if rng.Intn(5) == 0 { // the same genuine blob again at another height
+			h2 := first + uint64(rng.Intn(int(last-first+1)))
+			perH[h2] = append(perH[h2], g)
+		}
+	}
+	for _, j := range junk {
+		h := first + uint64(rng.Intn(int(last-first+1)))
+		perH[h] = append(perH[h], j)
+	}
+	if c.BigAt != 0 {
+		// up to 250 ids at one height: three chunks
+		for len(perH[c.BigAt]) < 230+rng.Intn(21) {
+			if rng.Intn(4) == 0 {
+				perH[c.BigAt] = append(perH[c.BigAt], genuine[rng.Intn(len(genuine))])
+			} else {
+				perH[c.BigAt] = append(perH[c.BigAt], junk[rng.Intn(len(junk))])
+			}
+		}
+	}
+	for h := first; h <= last; h++ {
+		blobs := perH[h]
+		rng.Shuffle(len(blobs), func(a, b int) { blobs[a], blobs[b] = blobs[b], blobs[a] })
+		ng := 0
+		for _, b := range blobs {
+			info := classify(p, b)
+			if info.genuine {
+				ng++
+			}
+			all = append(all, placed{h, b, info})
+		}
+		c.Layout = append(c.Layout, fmt.Sprintf("%d:%d blobs (%d genuine)", h, len(blobs), ng))
+		if len(blobs) > 0 {
+			da.Place(h, blobs...)
+		}
+	}
+	da.SetHeight(last)
+	for h, seq := range c.Outcomes {
+		for _, o := range seq {
+			ro := world.RetrieveOutcome{Kind: o}
+			if strings.HasPrefix(o, "chunkerr") {
+				ro = world.RetrieveOutcome{Kind: "chunkerr", Chunk: int(o[len(o)-1] - '0')}
+			}
+			da.ScriptRetrieve(h, ro)
+		}
+	}
+	r.Journal(c)
+	n, err := world.NewNode(ctx, world.NodeOpts{Aggregator: false, DABlockTime: time.Hour, BlockTime: time.Hour, DAStartHeight: c.Start},
+		p.Keys, world.NewMemDS(world.NewImage()), world.NewExecDouble(), world.NewSeqDouble(), da, nil)
+	if err != nil {
+		r.Violation("startup", err.Error(), c)
+		return
+	}
+	l := world.StartLoops(ctx, n, "retrieve")
+	defer l.Stop()
+	// collect events (the sync loop is not running: the harness is the consumer)
+	type ev struct {
+		data   bool
+		height uint64
+		hash   string
+		da     uint64
+	}
+	var events []ev
+	drain := func() {
+		for {
+			select {
+			case e := <-n.M.VerifHeaderInCh():
+				events = append(events, ev{false, e.Header.Height(), string(e.Header.Hash()), e.DAHeight})
+			case e := <-n.M.VerifDataInCh():
+				var hgt uint64
+				if e.Data.Metadata != nil {
+					hgt = e.Data.Metadata.Height
+				}
+				events = append(events, ev{true, hgt, string(e.Data.DACommitment()), e.DAHeight})
+			default:
+				return
+			}
+		}
+	}
+	old := world.Watchdog
+	_ = old
+	// scan until the loop was told "from the future" for the first height beyond the DA head
+	done := make(chan error, 1)
+	go func() { done <- l.RetrieveUntilIdle(da, last+1) }()
+	stall := false
+	timeout := time.After(90 * time.Second)
+wait:
+	for {
+		select {
+		case err := <-done:
+			if err != nil {
+				stall = true
+			}
+			break wait
+		case <-time.After(2 * time.Millisecond):
+			drain()
+		case <-timeout:
+			stall = true
+			break wait
+		}
+	}
+	drain()
+	wit := func() any {
+		var calls []string
+		for _, dc := range da.Calls() {
+			calls = append(calls, fmt.Sprintf("%s h=%d %s n=%d", dc.Kind, dc.Height, dc.Outcome, dc.NIDs))
+		}
+		if len(calls) > 80 {
+			calls = calls[:80]
+		}
+		return map[string]any{"case": c, "da_calls": calls}
+	}
+	if stall {
+		r.Violation("no-stall", fmt.Sprintf("the scan did not reach the DA head (height %d) within 90 s although every DA call returned at once; cursor is at %d", last, n.M.VerifDAHeight()), wit())
+		return
+	}
+	if l.Exited("retrieve") {
+		r.Violation("no-stall", "the DA scan loop terminated", wit())
+		return
+	}
+	// ---- oracle over the call log
+	var viol []string
+	calls := da.Calls()
+	type exam struct {
+		h       uint64
+		outcome string // success | notfound | future | listerr | chunkerr
+	}
+	var exams []exam
+	for i := 0; i < len(calls); i++ {
+		if calls[i].Kind != "getids" {
+			continue
+		}
+		e := exam{h: calls[i].Height, outcome: calls[i].Outcome}
+		if e.outcome == "ok" {
+			e.outcome = "success"
+			for j := i + 1; j < len(calls) && calls[j].Kind == "get"; j++ {
+				if calls[j].Outcome != "ok" {
+					e.outcome = "chunkerr"
+				}
+			}
+		}
+		exams = append(exams, e)
+	}
+	if len(exams) == 0 {
+		viol = append(viol, "the scan never asked the DA layer for anything")
+	} else {
+		r.Hit("starts-at-configured-height")
+		if exams[0].h != c.Start {
+			viol = append(viol, fmt.Sprintf("scan started at DA height %d, configured start is %d", exams[0].h, c.Start))
+		}
+	}
+	success := map[uint64]bool{}
+	for i, e := range exams {
+		if e.outcome == "success" {
+			success[e.h] = true
+		}
+		if i == 0 {
+			continue
+		}
+		prev := exams[i-1]
+		r.Hit("advance-rule")
+		switch prev.outcome {
+		case "success", "notfound":
+			if e.h != prev.h+1 {
+				viol = append(viol, fmt.Sprintf("after DA height %d was examined (%s) the next height asked for is %d, not %d", prev.h, prev.outcome, e.h, prev.h+1))
+			}
+		default:
+			r.Hit("retry-same-height")
+			if e.h != prev.h {
+				viol = append(viol, fmt.Sprintf("DA height %d answered %q but the scan moved to %d instead of retrying it", prev.h, prev.outcome, e.h))
+			}
+		}
+		if len(viol) > 3 {
+			break
+		}
+	}
+	// ---- events: every genuine blob at a successfully examined height is handed to sync, nothing else is
+	// A blob is required to be emitted when it is byte-identical to a genuine blob. An altered copy that still
+	// carries the proposer's valid signature over the same content (e.g. a bit flipped in an unsigned field) is
+	// the proposer's material as well: the scan may emit it or not, either way is conforming.
+	exact := map[string]bool{}
+	for _, g := range genuine {
+		exact[string(g)] = true
+	}
+	want := map[string]int{}
+	allowed := map[string]bool{}
+	for _, pl := range all {
+		if pl.info.genuine && success[pl.h] {
+			k := fmt.Sprintf("%v/%d/%x/%d", pl.info.isData, pl.info.height, pl.info.hash, pl.h)
+			allowed[k] = true
+			if exact[string(pl.blob)] {
+				want[k]++
+			}
+		}
+	}
+	got := map[string]int{}
+	for _, e := range events {
+		got[fmt.Sprintf("%v/%d/%x/%d", e.data, e.height, e.hash, e.da)]++
+	}
+	if DEBUG {
+		for k, v := range want {
+			fmt.Printf("want %s x%d got %d\n", k[:12]+k[len(k)-4:], v, got[k])
+		}
+		for k, v := range got {
+			fmt.Printf("got %s x%d want %d\n", k[:12]+k[len(k)-4:], v, want[k])
+		}
+	}
+	for k := range want {
+		r.Hit("genuine-blob-delivered")
+		if got[k] == 0 {
+			viol = append(viol, fmt.Sprintf("genuine blob (data=%v/block/hash/da = %s) at a successfully examined DA height was not handed to sync", strings.HasPrefix(k, "true"), k[:min(len(k), 40)]))
+			if len(viol) > 5 {
+				break
+			}
+		}
+	}
+	for k := range got {
+		r.Hit("only-genuine-delivered")
+		if !allowed[k] {
+			viol = append(viol, fmt.Sprintf("an event was handed to sync that is no genuine blob at that DA height: %s", k[:min(len(k), 40)]))
+			if len(viol) > 8 {
+				break
+			}
+		}
+	}
+	if len(viol) > 0 {
+		r.Violation(clauseOf(viol[0]), strings.Join(viol, " ;; "), wit())
+	}
+	nErr, nJunk := 0, 0
+	for _, seq := range c.Outcomes {
+		nErr += len(seq)
+	}
+	for _, pl := range all {
+		if !pl.info.genuine {
+			nJunk++
+		}
+	}
+	r.Count("da_examinations", int64(len(exams)))
+	r.Count("blobs_scanned", int64(len(all)))
+	r.Count("junk_blobs", int64(nJunk))
+	r.Count("events_emitted", int64(len(events)))
+	r.Eval(c.key(), nJunk > 0 && nErr > 0, map[string]any{"start": c.Start, "outcomes": c.Outcomes, "layout": c.Layout})
+	r.FlushHits()
+}
+
+// DEBUG prints the event comparison (tests only).
+var DEBUG bool
+
+func clauseOf(s string) string {
+	switch {
+	case strings.Contains(s, "retrying"):
+		return "retry-same-height"
+	case strings.Contains(s, "next height asked"):
+		return "advance-rule"
+	case strings.Contains(s, "was not handed"):
+		return "genuine-blob-delivered"
+	case strings.Contains(s, "no genuine blob"):
+		return "only-genuine-delivered"
+	}
+	return "scan"
+}
+
+func buildCases(r *vk.Run) []Case {
+	rng := r.Rand("cases")
+	maxLen := r.N(3, 4)
+	seqs := sequences(maxLen)
+	r.Set("outcome_sequences_enumerated", len(seqs))
+	var cases []Case
+	starts := []uint64{0, 1, 17}
+	reps := r.N(1, 3)
+	var all [][]string
+	for k := 0; k < reps; k++ {
+		all = append(all, seqs...)
+	}
+	// the scan retries a failing height up to ten times inside one pass before it gives the pass up:
+	// runs of 10-13 consecutive failures reach the pass-level error path (the height must then be
+	// examined again on the next tick, not skipped)
+	for k := 0; k < r.N(8, 40); k++ {
+		n := 10 + rng.Intn(4)
+		var long []string
+		for j := 0; j < n; j++ {
+			switch k % 4 {
+			case 0:
+				long = append(long, "listerr")
+			case 1:
+				long = append(long, "chunkerr0")
+			case 2:
+				long = append(long, []string{"listerr", "chunkerr0", "chunkerr1"}[rng.Intn(3)])
+			default:
+				long = append(long, []string{"listerr", "chunkerr0"}[j%2])
+			}
+		}
+		all = append(all, long)
+	}
+	for i, s := range all {
+		c := Case{ID: i, Start: starts[i%3], Heights: 4 + rng.Intn(5), Outcomes: map[uint64][]string{}, Seed: rng.Int63()}
+		first := c.Start
+		if first == 0 {
+			first = 1
+		}
+		// the enumerated sequence goes to one height; a second height gets another short one
+		h1 := first + uint64(rng.Intn(c.Heights))
+		c.Outcomes[h1] = s
+		if i%4 == 0 {
+			h2 := first + uint64(rng.Intn(c.Heights))
+			if h2 != h1 {
+				c.Outcomes[h2] = seqs[rng.Intn(len(seqs))]
+				if len(c.Outcomes[h2]) > 2 {
+					c.Outcomes[h2] = c.Outcomes[h2][:2]
+				}
+			}
+		}
+		if i%5 == 0 {
+			c.BigAt = h1
+		}
+		cases = append(cases, c)
+	}
+	return cases
+}
+
+func chains(ctx context.Context) ([]*world.Produced, error) {
+	keys := world.NewKeys("proposer")
+	var out []*world.Produced
+	for ci, shape := range []string{"xexxe", "xxxxxxx", "exe"} {
+		spec := world.ChainSpec{Initial: 1}
+		for b, ch := range shape {
+			if ch == 'e' {
+				spec.Blocks = append(spec.Blocks, nil)
+			} else {
+				spec.Blocks = append(spec.Blocks, [][]byte{[]byte(fmt.Sprintf("c09-%d-%d", ci, b)), bytes.Repeat([]byte{byte(b)}, 1+50*b)})
+			}
+		}
+		p, err := world.ProduceChain(ctx, spec, keys)
+		if err != nil {
+			return nil, err
+		}
+		out = append(out, p)
+	}
+	return out, nil
+}
+
+// child runs the cases of one shard: args = shard nShards tier.
+func child(args []string) int {
+	world.Silence()
+	var shard, n int
+	fmt.Sscanf(args[0], "%d", &shard)
+	fmt.Sscanf(args[1], "%d", &n)
+	r := vk.NewChildRun("C09", args[2], Level, os.Stdout)
+	ps, err := chains(context.Background())
+	if err != nil {
+		r.Violation("producer", err.Error(), nil)
+		return 0
+	}
+	// cases are a function of (seed, tier) only: every child builds the same list and takes its share
+	full := vk.NewRunNoCleanup("C09", args[2], Level)
+	cases := buildCases(full)
+	type res struct{}
+	sem := make(chan res, 4)
+	doneCh := make(chan res)
+	cnt := 0
+	for i, c := range cases {
+		if i%n != shard {
+			continue
+		}
+		cnt++
+		c := c
+		go func() {
+			sem <- res{}
+			runCase(r, ps[c.ID%len(ps)], c)
+			<-sem
+			doneCh <- res{}
+		}()
+	}
+	for i := 0; i < cnt; i++ {
+		<-doneCh
+	}
+	r.FlushHits()
+	return 0
+}
 
 // Run is the check entry point.
 func Run(r *vk.Run) {
-	r.Rule = "not implemented yet"
+	world.Silence()
+	maxLen := r.N(3, 4)
+	r.Rule = fmt.Sprintf("every sequence of fetch outcomes of length <= %d over {not found, from the future, listing error, error on chunk 0/1/2} scripted for a DA height before its real contents are served, for start heights {0,1,17}; DA heights hold the genuine header and signed-data blobs of real chains (shuffled, several per height, repeated at other heights) mixed with junk (truncations at every length class, bit flips, absurd varint lengths, wrong message types, empty, random, concatenations), one height with 230-250 ids (three fetch chunks); the real RetrieveLoop runs in child processes, the harness is the consumer of its events. Oracle on the DA call log: start height, advance only after success / nothing-here, retry the same height otherwise; every genuine blob at a successfully examined height is emitted, nothing else is. non-trivial = junk present and at least one non-success outcome; distinct by (start, outcomes, layout)", maxLen)
+	r.Assume("the 100 ms retry pause of the scan is real time; a scan that does not reach the DA head within 90 s although every DA call returns at once is judged stalled")
+	cases := buildCases(r)
+	r.SetExhaustive(true)
+	shards := 14
+	results := r.RunShards("c09", shards, shards, 40*time.Minute)
+	for _, res := range results {
+		if res.ExitErr != nil {
+			r.Violation("no-crash", fmt.Sprintf("the process running the DA scan died (%v) while working on a case", res.ExitErr),
+				map[string]any{"last_case_started": res.LastCase, "output_tail": res.Tail})
+		}
+	}
+	r.Require("advance-rule", int64(len(cases)))
+	r.Require("retry-same-height", int64(len(cases)/2))
+	r.Require("genuine-blob-delivered", int64(len(cases)))
 }
